@@ -1103,6 +1103,7 @@ fn seed_names(it: &mut Interner) {
     for i in 0..16 { it.id(&format!("xmm{}", i)); }
     for n in ["CF", "PF", "ZF", "SF", "OF", "DF"] { it.id(n); }
     for n in &R32[..8] { it.id(n); }
+    for n in ["es_base", "cs_base", "ss_base", "ds_base", "fs_base", "gs_base"] { it.id(n); }
 }
 enum Lifted {
     Ok(String, String), // cfg, successors
